@@ -24,6 +24,7 @@ import (
 	"strings"
 
 	"cuelang.org/go/internal/mod/modload"
+	"cuelang.org/go/mod/modfile"
 	"cuelang.org/go/internal/verif/core"
 	"cuelang.org/go/internal/verif/racelog"
 )
@@ -170,6 +171,31 @@ func tidy(u *Universe, arr Arr, yield bool) (outcome, *registry) {
 	for p, d := range res.Module.Deps {
 		out.Deps[p] = Dep{Path: p, V: d.Version, Default: d.Default}
 	}
+	// what tidy writes back must still carry the other fields of the file
+	orig, err := modfile.Parse(fsys["cue.mod/module.cue"].Data, "module.cue")
+	if err != nil {
+		return outcome{Err: "harness: " + err.Error()}, nil
+	}
+	data, err := modfile.Format(res.Module)
+	if err != nil {
+		out.Lost = "Format of the tidied module file fails: " + err.Error()
+		return out, reg
+	}
+	back, err := modfile.Parse(data, "module.cue")
+	switch {
+	case err != nil:
+		out.Lost = "the tidied module file does not parse: " + err.Error()
+	case back.Module != orig.Module:
+		out.Lost = "module"
+	case back.Description != orig.Description:
+		out.Lost = "description"
+	case (back.Source == nil) != (orig.Source == nil) || (back.Source != nil && *back.Source != *orig.Source):
+		out.Lost = "source"
+	case fmt.Sprint(back.Custom) != fmt.Sprint(orig.Custom):
+		out.Lost = "custom"
+	case back.Language == nil || back.Language.Version != orig.Language.Version:
+		out.Lost = "language.version"
+	}
 	return out, reg
 }
 
@@ -262,6 +288,10 @@ func checkUniverse(r *core.Run, c kase) {
 	}
 	r.Outcome("tidy:ok")
 	r.State(base.String())
+	if base.Lost != "" {
+		viol("the tidied module file loses a field", base.Lost)
+		return
+	}
 	defects, labels := check(u, base.Deps)
 	for _, l := range labels {
 		r.Outcome("shape:" + l)
